@@ -9,6 +9,8 @@ RULE = ("Histories restricted to failing recipients: 1-5 recipients (local/remot
         "documented newline squashing, marker + Return-Path + byte-identical original; at most one notice per original in fault-free histories; "
         "nothing queued for #@[] senders. Non-trivial = a notice was produced; distinct = scenario digest.")
 ASSUMPTIONS = ["one report per quiescent point, so the order of failures is the order of reports",
+               "crash points (stop before a system call, files kept, restart) are swept for the fixed bounce/double-bounce history; across a crash only "
+               "'every recorded permanent failure is answered by a notice' is judged",
                "single injected faults (one per run) are swept for one fixed bounce/double-bounce history and sampled for generated ones; under a fault more than one notice per original is accepted"]
 TAGS = ("C14",)
 
@@ -24,6 +26,9 @@ FULLY_SWEPT = [
 
 def run(ctx):
     q.search(ctx, "C14", TAGS, 0, 0, sweep={"all": True, "faults_only": True}, fixed=FULLY_SWEPT)
+    # every crash point (image kept) of the daemon and its helpers for the same history, then restart: the failures recorded before the crash
+    # must still be answered by a notice (only that clause is judged: a crash legitimately repeats an attempt and hence a paragraph)
+    q.search(ctx, "C14", TAGS, 0, 0, sweep={"all": True, "kept_only": True, "crashes_only": True, "tags": ["C14-owed"]}, fixed=FULLY_SWEPT)
     q.search(ctx, "C14", TAGS, 100, 1500, sweep={"fault": 2})
 
 
